@@ -57,6 +57,38 @@ def replay_ulist(call):
     return dict(fails=bool(bad), detail='; '.join(bad[:3]) or 'ulist(%r) %s %r agrees with the ordered-set oracle' % (u, op, xs))
 
 
+def replay_ulist_init(call):
+    """ulist.__init__: the model fixes len(xs) <= 3 and the cells xs[i]; the list is rebuilt (one python object per abstract value, plus every list of
+    length <= 3 over two symbols) and handed to ulist / a subclass with and without unique = True: DEDUP oracle, items kept, argument unchanged"""
+    from pyg_base import ulist
+
+    class MyU(ulist):
+        pass
+    variant = call['extra'][0]
+    nx = int(call.get('len_xs') or 0)
+    cands = [[str(call.get('xs%d' % i)) for i in range(nx)]] if 0 <= nx <= 3 else []
+    cands += [list(t) for n in range(4) for t in itertools.product('pq', repeat=n)]
+    bad = []
+    for xs in cands:
+        for cls in (ulist, MyU):
+            arg = list(xs)
+            try:
+                if variant.endswith('no_argument'):
+                    r, exp = (cls(unique=True) if variant.startswith('unique') else cls()), []
+                elif variant.startswith('unique'):
+                    r, exp = cls(arg, unique=True), list(xs)
+                else:
+                    r, exp = cls(arg), _dedup(xs)
+            except Exception as e:      # noqa
+                bad.append('%s(%r) [%s] raised %r' % (cls.__name__, xs, variant, e))
+                continue
+            if list(r) != exp or type(r) is not cls:
+                bad.append('%s(%r) [%s] = %s(%r), expected %r' % (cls.__name__, xs, variant, type(r).__name__, list(r), exp))
+            if arg != xs:
+                bad.append('%s(%r) [%s] changed its argument to %r' % (cls.__name__, xs, variant, arg))
+    return dict(fails=bool(bad), detail='; '.join(bad[:3]) or 'ulist constructor [%s] agrees with the oracle on %d lists' % (variant, len(cands)))
+
+
 # ----------------------------------------------------------------------------------------------- dictattr
 def _classes(name):
     from pyg_base import dictattr, Dict
@@ -69,23 +101,74 @@ def _same(r, exp, cls):
     return type(r) is cls and dict.__eq__(r, exp) and list(dict.keys(r)) == list(exp.keys())
 
 
+_UP = lambda k: 'F(%s)' % k      # noqa
+
+
+def _relabel_args(variant, keys):
+    """positional arguments of one call shape of relabel and the label they give a key that is not explicitly relabelled (oracle from the docstring)"""
+    if variant == 'suffix':
+        return ('_s',), (lambda k: k + '_s')
+    if variant == 'prefix':
+        return ('p_',), (lambda k: 'p_' + k)
+    if variant == 'other_string':
+        return ('plain',), (lambda k: k)
+    if variant == 'callable':
+        return (_UP,), _UP
+    if variant == 'dict':
+        m = {'K1': 'A1', 'zz': 'unused'}
+        return (m,), (lambda k: m.get(k, k))
+    if variant == 'names':
+        names = tuple('N%d' % j for j in range(2))
+        return names, ((lambda k: names[keys.index(k)]) if len(keys) == 2 else (lambda k: k))
+    return (), (lambda k: k)
+
+
+def replay_relabel(call):
+    """the module-level relabel(keys, *args, **relabels): key lists over K0, K1 and a filler in every order, explicit relabels for some of them"""
+    from pyg_base import relabel
+    variant = call['extra'][0]
+    bad, tried = [], 0
+    for n in range(0, 4):
+        for keys in itertools.permutations(['K0', 'K1', 'f'], n):
+            keys = list(keys)
+            for sel in ({}, {'K0': 'R0'}, {'K0': 'R0', 'zz': 'never'}, {'f': 'K9', 'K1': 'R1'}):
+                pos, base = _relabel_args(variant, keys)
+                pos_before = copy.deepcopy([p for p in pos if not callable(p)])
+                tried += 1
+                try:
+                    r = relabel(list(keys), *pos, **sel)
+                except Exception as e:      # noqa
+                    bad.append('relabel(%r, *%r, **%r) raised %r' % (keys, pos, sel, e))
+                    continue
+                built = {k: base(k) for k in keys if base(k) != k or variant in ('suffix', 'prefix', 'callable') or (variant == 'names' and len(keys) == 2)}
+                if variant == 'dict':
+                    built = dict(pos[0])
+                exp = {**built, **sel}
+                if type(r) is not dict or r != exp or list(r) != list(exp):
+                    bad.append('relabel(%r, *%r, **%r) = %r, expected %r' % (keys, pos, sel, r, exp))
+                if [p for p in pos if not callable(p)] != pos_before:
+                    bad.append('relabel(%r, *%r, **%r) changed a positional argument' % (keys, pos, sel))
+    return dict(fails=bool(bad), detail='; '.join(bad[:3]) or 'relabel [%s]: %d rebuilt calls agree with the oracle' % (variant, tried))
+
+
 def replay_dictattr(call):
     clsname, op = call['extra'][0], call['extra'][1]
     tri = lambda v: [True, False] if v is None else [bool(v)]   # noqa
     bad = []
     tried = 0
-    for k0_in, k1_in, k0_first, filler_pos in itertools.product(tri(call.get('K0_in_d')), tri(call.get('K1_in_d')), tri(call.get('K0_before_K1')), (0, 1, 2)):
+    for k0_in, k1_in, k0_first, filler_pos in itertools.product(tri(call.get('K0_in_d')), tri(call.get('K1_in_d')), tri(call.get('K0_before_K1')), (0, 1, 2, None)):
         keys = (['K0'] if k0_in else []) + (['K1'] if k1_in else [])
         if not k0_first:
             keys = keys[::-1]
-        keys.insert(min(filler_pos, len(keys)), 'f')
+        if filler_pos is not None:
+            keys.insert(min(filler_pos, len(keys)), 'f')
         vals = {k: 'v' + k for k in keys}
         sels = []
         if op.endswith('.key'):
             sels = ['K0', 'K1', 'f', 'absent']
         elif op.startswith('add') or op.startswith('or.'):
             sels = [dict(o) for o in ({}, {'K0': 'o0'}, {'n': 'on', 'K1': 'o1'}, {'n': 'on', 'm': 'om', 'K0': 'o0'}, {'m': 'om', 'n': 'on'})]
-        elif op == 'relabel':
+        elif op.startswith('relabel'):
             sels = [{}, {'K0': 'R0'}, {'K0': 'R0', 'K1': 'R1', 'zz': 'never'}, {'f': 'K9'}]
         else:
             pool = ['K0', 'K1', 'f', 'absent']
@@ -156,11 +239,13 @@ def replay_dictattr(call):
                         except KeyError:
                             if all(k in vals for k in sel):
                                 msg = 'd[%r] raised KeyError although every key is present' % (sel,)
-                    elif op == 'relabel':
-                        r = d.relabel(**sel)
-                        exp = {sel.get(k, k): vals[k] for k in keys}
+                    elif op.startswith('relabel'):
+                        variant = op.split('.', 1)[1] if '.' in op else 'none'
+                        pos, base = _relabel_args(variant, keys)
+                        r = d.relabel(*pos, **sel)
+                        exp = {sel.get(k, base(k)): vals[k] for k in keys}
                         if not _same(r, exp, cls) or r is d:
-                            msg = 'd.relabel(**%r) = %s(%r), expected %r' % (sel, type(r).__name__, dict(r), exp)
+                            msg = 'd.relabel(*%r, **%r) = %s(%r), expected %r' % (pos, sel, type(r).__name__, dict(r), exp)
                 except Exception as e:      # noqa
                     msg = '%s with %r raised %r' % (op, sel, e)
                 if msg is None and not (dict.__eq__(d, vals) and list(dict.keys(d)) == keys and type(d) is cls):
@@ -271,6 +356,10 @@ def replay(call):
         return replay_apply(call)
     if kind == 'ulist':
         return replay_ulist(call)
+    if kind == 'ulist_init':
+        return replay_ulist_init(call)
+    if kind == 'relabel':
+        return replay_relabel(call)
     if kind == 'dictattr':
         return replay_dictattr(call)
     if kind == 'call':
